@@ -156,6 +156,8 @@ pub fn parse_design_file(ctx: &mut ParsingContext<'_>) -> ParseResult<DesignFile
     let mut design_units = vec![];
 
     while let Some(token) = ctx.stream.peek() {
+        #[cfg(vhdl_ls_rust_hdl_verif)]
+        ctx.stream.verif_mark(); // hook H3: top of an iteration
         try_init_token_kind!(
             token,
             Library => {
@@ -254,6 +256,9 @@ pub fn parse_design_file(ctx: &mut ParsingContext<'_>) -> ParseResult<DesignFile
             }
         );
     }
+
+    #[cfg(vhdl_ls_rust_hdl_verif)]
+    ctx.stream.verif_mark(); // hook H3: the loop has ended
 
     for context_item in context_clause {
         ctx.diagnostics.add(
